@@ -5,6 +5,37 @@ V = os.path.dirname(os.path.dirname(os.path.abspath(__file__)))
 ALL = ["C%02d" % i for i in range(1, 21)]
 
 CLAIMED = {
+ "C01": dict(
+   level="exploration",
+   text="Pure invariant check on the interpreter's own GlobalData.configuration, snapshotted after start-up, after every microstep and at every idle point of generated statecharts (parallel, history, finals, internal/targetless/multi-target transitions, three data models) under generated event sequences: legality per W3C 3.11 plus enter/exit stream invariants (no entry while active, no exit while inactive, exits before entries, stream consistent with snapshots).",
+   design="6/C01",
+   note="Trusted: recording tracer + snapshots (harness/src/runner.rs) and the legality predicate (checks/c01.rs). One open known finding (re-entry prescribed by the W3C history-ancestor rule) is matched by signature only where the reference interpreter prescribes the same Enter.",
+   technique="property-based testing of a state invariant over generated documents and event histories"),
+ "C02": dict(
+   level="exploration",
+   text="Differential testing against an independent reference interpreter written from the W3C pseudo-code over my own AST: selected transition set per microstep, exit order, body order, entry order, done events, configuration after every microstep and history values at every idle point must be identical; every case is run twice (fresh parse and session) and must reproduce itself exactly.",
+   design="6/C02",
+   note="Trusted: harness/src/refmodel.rs (my reading of appendix D), doc generator only produces conformant documents. Documents <= 14 states, depth <= 4.",
+   technique="property-based differential testing vs. reference interpreter + determinism (run-twice) relation"),
+ "C03": dict(
+   level="exploration",
+   text="Differential testing against the reference interpreter on a queue-heavy profile (raise, #_internal send, self-send, guarded eventless transitions, done handlers) with events pre-queued or fed at idle, plus reference-free stream invariants (external events in send order exactly once, idle point exactly before each external dequeue, unmatched event changes nothing) and the metamorphic relation pre-queued == fed-at-idle when no self-send exists.",
+   design="6/C03",
+   note="Trusted: reference interpreter incl. its model of the external queue; the harness parks the session in its first tracer call so that pre-queuing is deterministic.",
+   technique="property-based differential testing + history invariants + metamorphic relation"),
+ "C06": dict(
+   level="exploration",
+   text="History profile (shallow/deep, compound/parallel parents, nested, default content) checked by a reference-free oracle (value recorded from the pre-exit snapshot == value stored by the implementation == value re-entered; default content exactly when nothing was recorded and the parent is entered, positioned after the parent's onentry) and by trace equality with the reference interpreter.",
+   design="6/C06",
+   note="The reference-free oracle is applied to microsteps with one selected transition targeting one history state; all other steps are covered by the differential comparison only.",
+   technique="property-based testing with snapshot-based history oracle + differential testing"),
+ "C07": dict(
+   level="exploration",
+   text="Finals profile (finals at all levels, every parallel region can complete, done handlers, queued events behind the terminating one, cancel) checked by trace equality with the reference interpreter and reference-free invariants: done.state.<parent> after each final entry, done.state.<parallel> iff all regions final, nothing but onexit content after the end, onexit exactly once in exit order, reported final configuration == configuration at shutdown.",
+   design="6/C07",
+   note="done.invoke to an invoking parent and donedata payloads are not yet covered here (C14 / later extension).",
+   technique="property-based differential testing + shutdown/done-event history invariants"),
+
  "C10": dict(
    level="exploration",
    text="Differential testing of the real parser/evaluator against an independent reference evaluator (precedence climbing over the documented priority table, README value semantics) on generated expression ASTs and data stores, plus a complete enumeration of all operator sequences of length <=2 (quick) / <=3 (thorough) over 14 operator spellings x 12 operand values; metamorphic checks (whitespace, redundant parentheses, compiled vs. cached data-model path). Exploration, not proof: the property quantifies over an infinite language.",
